@@ -1084,9 +1084,7 @@ impl Compiler {
         // Reserve registers for parameters - they are passed in registers 0, 1, 2...
         // We must reserve these before any other register allocation
         if !params.is_empty() {
-            func_compiler
-                .builder
-                .reserve_registers(params.len() as u8)?;
+            func_compiler.builder.reserve_registers(params.len())?;
         }
 
         // Compile parameter declarations
@@ -2017,9 +2015,7 @@ impl Compiler {
 
         // Reserve registers for parameters
         if !ctor.params.is_empty() {
-            func_compiler
-                .builder
-                .reserve_registers(ctor.params.len() as u8)?;
+            func_compiler.builder.reserve_registers(ctor.params.len())?;
         }
 
         // Compile parameter declarations inline (same as compile_function_body)
